@@ -302,7 +302,9 @@ def boundary_polygon(cells):
 LINES = [([0.0, 1.0, 2.0, 3.0, 4.0], [0.0, 1.0, 2.0, 3.0, 4.0]), ([0.0, 1.0, 2.5, 3.0, 4.75], [10.0, 10.5, 12.0, 13.0, 13.3]),
          ([0.0, 0.1, 0.2, 0.30000000000000004, 0.4], [0.0, 1 / 3, 2 / 3, 1.0, 4 / 3]),
          # coordinates that look like markers: -1 is the padding value of FloorSet vertex arrays (added after seed C15-7)
-         ([-1.0, 0.0, 1.0, 2.0, 3.0], [-2.0, -1.0, 0.0, 1.0, 2.0])]
+         ([-1.0, 0.0, 1.0, 2.0, 3.0], [-2.0, -1.0, 0.0, 1.0, 2.0]),
+         # far from the origin, all numbers exact (after the open seed r8-C15-2: a relative tolerance decided which edges are horizontal)
+         ([2.0 ** 30 + k for k in range(5)], [1e9 + k for k in range(5)])]
 
 
 @contract(P, kind="enum", functions=[T + "utils.utils.strop_decomposition", T + "utils.utils.is_point_inside_polygon", "frame.geometry.geometry.create_stog"],
@@ -328,7 +330,7 @@ def polygons_decomposed_with_their_area(chunk, replay=None):
             if poly is None:
                 continue
             decomposable = bool(oracle_trunks(m))
-            for li, (xs, ys) in enumerate(LINES if tier == "thorough" else LINES[:2] + ([LINES[2]] if n % 5 == 0 else []) + ([LINES[3]] if n % 3 == 0 else [])):
+            for li, (xs, ys) in enumerate(LINES if tier == "thorough" else LINES[:2] + ([LINES[2]] if n % 5 == 0 else []) + ([LINES[3]] if n % 3 == 0 else []) + ([LINES[4]] if n % 4 == 0 else [])):
                 # y grows upwards in the floorplan: row i spans ys'[nr - i - 1] .. ys'[nr - i]
                 Y = ys[:nr + 1]
                 X = xs[:nc + 1]
